@@ -79,5 +79,8 @@ class DiscreteRV:
         """
         random_state = check_random_state(random_state)
 
-        return self.Q.searchsorted(random_state.uniform(0, 1, size=k),
-                                   side='right')
+        idx = self.Q.searchsorted(random_state.uniform(0, 1, size=k),
+                                  side='right')
+        # Q[-1] may be slightly below 1 because of rounding in cumsum
+        idx[idx == self.Q.size] = self.Q.searchsorted(self.Q[-1], side='left')
+        return idx
